@@ -763,3 +763,26 @@ Theorem C01_single_successor_insertion_column_sound :
       WTrace h (resolve_flat h) strict n e ds tr st -> WTrace ha (resolve_flat ha) strict n e' ds tr st.
 Proof. exact ins1_col_sound. Qed.
 Print Assumptions C01_single_successor_insertion_column_sound.
+
+
+(* the per-call columns of insert_block_and_control_blocks (any level, any kind of predecessor) and of
+   extract_region mean what they say: value 1 => the hierarchy the implementation produced has every flat walk
+   of the hierarchy before the call *)
+From V Require Import Model.HierCols.
+Theorem C01_control_blocks_column_sound :
+  forall h ha lvl new var preds Ss names strict,
+    cbh_col_of h ha lvl new var preds Ss names = 1%Z ->
+    forall n e e' ds tr st,
+      (exists b p, find h n = Some b /\ n_kind b = KOrig p) -> E (Fc var) e e' ->
+      WTrace h (resolve_flat h) strict n e ds tr st -> WTrace ha (resolve_flat ha) strict n e' ds tr st.
+Proof. exact cbh_col_sound. Qed.
+Print Assumptions C01_control_blocks_column_sound.
+
+Theorem C01_region_extraction_column_sound :
+  forall h ha lvl blocks entries hd ex rk rname strict,
+    extract_col_of h ha lvl blocks entries hd ex rk rname = 1%Z ->
+    forall n e e' ds tr st,
+      (exists b p, find h n = Some b /\ n_kind b = KOrig p) -> E Fx e e' ->
+      WTrace h (resolve_flat h) strict n e ds tr st -> WTrace ha (resolve_flat ha) strict n e' ds tr st.
+Proof. exact extract_col_sound. Qed.
+Print Assumptions C01_region_extraction_column_sound.
